@@ -1,6 +1,7 @@
 import Nstd.Common.Basic
 import Nstd.Args.Model
 import Nstd.Args.Kernel
+import Nstd.Args.Wait
 /-
   Line protocol of the Args area (property C20).  One op per line, one observation line per op.
 
@@ -31,6 +32,16 @@ import Nstd.Args.Kernel
     env set <name> <value> | env get <name> <default> | env all
                                             → e ok=<0|1> | e val=<hex> | e all=<name=value hex,... in Map order>
          (the variables set through the API; the harness uses names starting with NVT_ and removes them at reset)
+    env putraw <entry without =>            → e ok=1   (an entry the application put into environ itself; not a variable)
+    p joinv | p startargv <code> | p opencmd <mask> <code> | p openfailpipe <mask> <k>
+                                            → as join / start / open / openfail (other overloads, the k-th pipe() failing)
+    pexit <code>                            → pexit ok=1 code=<code>      (Process::exit in a forked copy; repaired code)
+    ids                                     → ids pid=1 exe=1
+    io2 <n> <seed> <code>                   → io2 ok=1 pipes=5            (two-argument read, write, close(streams))
+    w new | w start <i> z <code> | w start <i> r | w die <i> | w join <i> | w kill <i> | w intr | w wait <list> <ms> <pick>
+                                            → w <op> ... pend=<0|1> kids=<n> zombies=<n>
+         Process::wait / interrupt over four Process objects, run on the transition system of Wait.lean; <pick> = the
+         object whose terminated child the kernel reports to waitid (`-` = none), <ms> > 0 = another thread interrupts
   An inherited environment is shown as `env=inherit:<the API-set variables, sorted as strings>`.
 
   The harness prints the same prefix followed by ` | <what the kernel delivered>`; that part is
@@ -132,6 +143,104 @@ def fdTableLine (streams : Nat) : String :=
     if member = 0 then "none" else "P:" ++ holders r.parent p role ++ ";C:" ++ holders r.child p toString
   s!"ft ok=1 out={one 0 r.fdStdOutRead} err={one 1 r.fdStdErrRead} in={one 2 r.fdStdInWrite}"
 
+/-! ### Process::wait / interrupt (Wait.lean) -/
+
+def wEnd (s : Wait.St) : String :=
+  let held := (List.range 4).filter (fun i => (s.objs i).1 != 0)
+  let zomb := held.filter (fun i => match s.procs (s.objs i).1 with | some (_, some _) => true | _ => false)
+  s!" pend={b01 (s.sig != .zero)} kids={held.length} zombies={zomb.length}"
+
+def wFresh (s : Wait.St) : Nat := s.nextCid + 1          -- the driver's kernel never reuses a pid (the theorems allow reuse)
+
+/-- the owner thread runs `wait` to its return; when it blocks and another thread is going to interrupt, the
+    interrupt happens there (the dummy child is then the only terminated child).  `none` = blocks for ever -/
+def wRun : Nat → Wait.St → Nat → Bool → Option (Wait.St × Bool)
+  | 0, _, _, _ => none
+  | f + 1, s, pick, canIntr =>
+    if s.pc = .idle then some (s, canIntr)
+    else
+      match Wait.waiterStep s pick with
+      | some s' => wRun f s' pick canIntr
+      | none =>
+        if canIntr then
+          match Wait.interrupt s (wFresh s) with
+          | some s' => wRun f s' (match s'.sig with | .pid p => p | _ => pick) false
+          | none => none
+        else none
+
+def wIndex (t : String) : Option Nat :=
+  match t.toNat? with
+  | some i => if i < 4 ∧ t.length = 1 then some i else none
+  | none => none
+
+def wList (t : String) : Option (List Nat) :=
+  if t == "-" then some [] else t.toList.mapM (fun c => wIndex c.toString)
+
+def wStep (s : Wait.St) (ws : List String) : Wait.St × String :=
+  match ws with
+  | ["new"] => (Wait.St.init, "w new" ++ wEnd Wait.St.init)
+  | ["start", i, "z", c] =>
+    match wIndex i, c.toNat? with
+    | some i, some c =>
+      match Wait.start s i (wFresh s) with
+      | some s1 =>
+        match Wait.childExit s1 (wFresh s) c with
+        | some s2 => (s2, "w start ok=1" ++ wEnd s2)
+        | none => (s, "FAULT")
+      | none => (s, "w start ok=0" ++ wEnd s)
+    | _, _ => (s, "bad-op")
+  | ["start", i, "r"] =>
+    match wIndex i with
+    | some i =>
+      match Wait.start s i (wFresh s) with
+      | some s1 => (s1, "w start ok=1" ++ wEnd s1)
+      | none => (s, "w start ok=0" ++ wEnd s)
+    | none => (s, "bad-op")
+  | ["die", i] =>
+    match wIndex i with
+    | some i =>
+      match (if (s.objs i).1 = 0 then none else Wait.childExit s (s.objs i).1 0) with
+      | some s1 => (s1, "w die ok=1" ++ wEnd s1)
+      | none => (s, "w die ok=0" ++ wEnd s)
+    | none => (s, "bad-op")
+  | ["join", i] =>
+    match wIndex i with
+    | some i =>
+      if (s.objs i).1 = 0 then (s, "w join ok=0 code=-" ++ wEnd s)
+      else
+        match Wait.join s i with
+        | some (s1, c) => (s1, s!"w join ok=1 code={c}" ++ wEnd s1)
+        | none => (s, "BLOCK")
+    | none => (s, "bad-op")
+  | ["kill", i] =>
+    match wIndex i with
+    | some i =>
+      match Wait.kill s i with
+      | some s1 => (s1, "w kill ok=1" ++ wEnd s1)
+      | none => (s, "w kill ok=0" ++ wEnd s)
+    | none => (s, "bad-op")
+  | ["intr"] =>
+    match Wait.interrupt s (wFresh s) with
+    | some s1 => (s1, "w intr" ++ wEnd s1)
+    | none => (s, "FAULT")
+  | ["wait", l, ms, pick] =>
+    match wList l, ms.toNat? with
+    | some l, some ms =>
+      let pickPid := match wIndex pick with | some i => (s.objs i).1 | none => 0
+      match Wait.waitCall s l with
+      | none => (s, "FAULT")
+      | some s0 =>
+        match wRun 8 s0 pickPid (ms != 0) with
+        | none => (s, "BLOCK")
+        | some (s1, unused) =>
+          -- an interrupter that comes after the return leaves its interrupt pending
+          let s2 := if unused then (Wait.interrupt s1 (wFresh s1)).getD s1 else s1
+          match s1.lastRet with
+          | none => (s2, "w wait ret=null" ++ wEnd s2)
+          | some i => (s2, s!"w wait ret={i} term=1" ++ wEnd s2)
+    | _, _ => (s, "bad-op")
+  | _ => (s, "bad-op")
+
 def stepLine' (pe : PEnv) (ws : List String) : String :=
     match ws with
     | "args" :: o :: words =>
@@ -141,6 +250,9 @@ def stepLine' (pe : PEnv) (ws : List String) : String :=
         let argv : List Buf := ("prog".toList.map Char.toNat ++ [0]) :: wl.map (· ++ [0])
         runArgs opts (2 * total + 8 + 1) (St.init argv) "r"
       | _, _ => "bad-op"
+    | ["args0"] =>
+      -- argc == 0: no argv[0]; table a/alpha flag, o/out with value
+      runArgs [⟨97, some [97, 108, 112, 104, 97, 0], 0⟩, ⟨111, some [111, 117, 116, 0], 1⟩] 5 (St.init []) "r"
     | ["split", h] =>
       match fromHex h with
       | none => "bad-op"
@@ -161,6 +273,15 @@ def stepLine' (pe : PEnv) (ws : List String) : String :=
       match code.toNat? with
       | some _ => "exit ok=1"
       | none => "bad-op"
+    | ["pexit", code] =>
+      match code.toNat? with
+      | some c => s!"pexit ok=1 code={c % 256}"          -- Process::exit(code): `_exit(code)` (repaired), status = low 8 bits
+      | none => "bad-op"
+    | ["ids"] => "ids pid=1 exe=1"
+    | ["io2", n, seed, code] =>
+      match n.toNat?, seed.toNat?, code.toNat? with
+      | some _, some _, some _ => "io2 ok=1 pipes=5"
+      | _, _, _ => "bad-op"
     | ["fds"] => "fds"
     | ["late", order, m, ms, code] =>
       match m.toNat?, ms.toNat?, code.toNat? with
@@ -236,13 +357,26 @@ def parsePOp : List String → Option POp
   | ["open", m, c] => do let m ← m.toNat?; let _ ← c.toNat?; pure (.openp m)
   | ["openfail", m] => m.toNat?.map .openFailed
   | ["join"] => some .join
+  | ["joinv"] => some .join
+  | ["startargv", c] => c.toNat?.map (fun _ => .start)
+  | ["opencmd", m, c] => do let m ← m.toNat?; let _ ← c.toNat?; pure (.openp m)
+  | ["openfailpipe", m, k] => do
+    let m ← m.toNat?; let k ← k.toNat?
+    -- the k-th pipe() call fails; open() makes one pipe per requested stream
+    let n := (if bit m 1 then 1 else 0) + (if bit m 2 then 1 else 0) + (if bit m 4 then 1 else 0)
+    if k = 0 ∨ k > n then pure (.openp m) else pure (.openFailed m)
   | ["kill"] => some .kill
   | ["close", m] => m.toNat?.map .close
   | ["running"] => some .isRunning
   | ["read3", m] => m.toNat?.map .read3
   | _ => none
 
-def stepLine (st : Proc × PEnv) (ws : List String) : (Proc × PEnv) × String :=
+structure DSt where
+  proc : Proc
+  env : PEnv
+  w : Wait.St
+
+def stepLine0 (st : Proc × PEnv) (ws : List String) : (Proc × PEnv) × String :=
   match ws with
   | ["reset"] => ((Proc.init, []), "ready")
   | "p" :: rest =>
@@ -260,8 +394,18 @@ def stepLine (st : Proc × PEnv) (ws : List String) : (Proc × PEnv) × String :
   | ["env", "all"] =>
     -- getEnvironmentVariables(): a Map, i.e. sorted by name
     (st, "e all=" ++ hexList (prepareEnv (st.2.foldl (fun m kv => mapInsert kv.1 kv.2 m) [])))
+  | ["env", "putraw", k] =>
+    match fromHex k with
+    | some _ => (st, "e ok=1")          -- not a variable: neither getenv nor getEnvironmentVariables shows it
+    | none => (st, "bad-op")
   | _ => (st, stepLine' st.2 ws)
+
+def stepLine (st : DSt) (ws : List String) : DSt × String :=
+  match ws with
+  | ["reset"] => ({ proc := Proc.init, env := [], w := Wait.St.init }, "ready")
+  | "w" :: rest => let (w', out) := wStep st.w rest; ({ st with w := w' }, out)
+  | _ => let (r, out) := stepLine0 (st.proc, st.env) ws; ({ st with proc := r.1, env := r.2 }, out)
 
 end Nstd.Args
 
-def main : IO Unit := Nstd.Common.ioLoop (Nstd.Args.Proc.init, []) Nstd.Args.stepLine
+def main : IO Unit := Nstd.Common.ioLoop ({ proc := Nstd.Args.Proc.init, env := [], w := Nstd.Args.Wait.St.init } : Nstd.Args.DSt) Nstd.Args.stepLine
